@@ -36,6 +36,19 @@ EDITS = [
     ('C06', 'src/rpm/builder.rs', [('for d in self.requires.into_iter() {\n            require_names.push(d.name);\n            require_flags.push(d.flags.bits());\n            require_versions.push(d.version);', 'for d in self.requires.into_iter() {\n            require_flags.push(d.flags.bits());\n            require_names.push(d.name);\n            require_versions.push(d.version);')]),
     ('C19', 'src/rpm/filecaps.rs', [('    if s.is_empty() || s.eq_ignore_ascii_case("all") {\n        return Ok(());\n    }', '    if s.eq_ignore_ascii_case("all") || s.is_empty() {\n        return Ok(());\n    }')]),
     ('C15', 'src/version.rs', [('let (release, arch) = ra.rsplit_once(\'.\').unwrap_or((ra, ""));\n\n        (name, epoch, version, release, arch)', 'let (rel, arch) = ra.rsplit_once(\'.\').unwrap_or((ra, ""));\n        let release = rel;\n\n        (name, epoch, version, release, arch)')]),
+    # structural (not just renaming) semantics-preserving edits
+    ('C16', 'src/rpm/headers/header.rs', [('        self.index_entries.clear();\n        self.index_header.data_section_size = 0;\n        self.index_header.num_entries = 0;', '        self.index_header.num_entries = 0;\n        self.index_header.data_section_size = 0;\n        self.index_entries.clear();')]),
+    ('C12', 'src/rpm/package.rs', [('            if links.iter().any(|link| file_path.starts_with(link)) {', '            let through_link = links.iter().any(|link| file_path.starts_with(link));\n            if through_link {')]),
+    ('C19', 'src/rpm/filecaps.rs', [('        if index == 0 && !part.starts_with(\'=\') {', '        if !part.starts_with(\'=\') && index == 0 {')]),
+    ('C15', 'src/version.rs', [('        let (epoch, version) = ev.split_once(\':\').unwrap_or(("", ev));\n        let (release, arch) = ra.rsplit_once(\'.\').unwrap_or((ra, ""));', '        let (release, arch) = ra.rsplit_once(\'.\').unwrap_or((ra, ""));\n        let (epoch, version) = ev.split_once(\':\').unwrap_or(("", ev));')]),
+    ('C13', 'src/version.rs', [('        if version1_part.is_empty() || version2_part.is_empty() {\n            break;\n        }', '        if version2_part.is_empty() || version1_part.is_empty() {\n            break;\n        }')]),
+    ('C11', 'src/rpm/builder.rs', [('        let build_time = match self.source_date {\n            Some(t) if t < now => t,\n            _ => now,\n        };', '        let build_time = match self.source_date {\n            Some(t) if t < now => t,\n            Some(_) => now,\n            None => now,\n        };')]),
+    ('C06', 'src/rpm/builder.rs', [('        if let Some(vendor) = self.vendor {\n            actual_records.push(IndexEntry::new(\n                IndexTag::RPMTAG_VENDOR,\n                offset,\n                IndexData::StringTag(vendor),\n            ));\n        }', '        match self.vendor {\n            Some(vendor) => actual_records.push(IndexEntry::new(\n                IndexTag::RPMTAG_VENDOR,\n                offset,\n                IndexData::StringTag(vendor),\n            )),\n            None => {}\n        }')]),
+    ('C17', 'src/rpm/compressor.rs', [('            CompressionWithLevel::Bzip2(level) => 1 <= level && level <= 9,', '            CompressionWithLevel::Bzip2(level) => level >= 1 && level <= 9,')]),
+    ('C07', 'src/rpm/payload.rs', [('        let remaining = self.file_size - self.bytes_read;\n        if remaining > 0 {', '        let remaining = self.file_size - self.bytes_read;\n        if remaining != 0 {')]),
+    ('C05', 'src/rpm/package.rs', [('                            if let Some(dir) = dirs.get(dir_index as usize) {\n                                acc.push(Path::new(dir).join(basename));\n                                Ok(acc)\n                            } else {', '                            if let Some(dir) = dirs.get(dir_index as usize) {\n                                let full = Path::new(dir).join(basename);\n                                acc.push(full);\n                                Ok(acc)\n                            } else {')]),
+    ('C10', 'src/rpm/package.rs', [('                if new_key_ids.len() != 1 {', '                if 1 != new_key_ids.len() {')]),
+    ('C18', 'src/rpm/headers/types.rs', [('permissions & PERMISSIONS_BIT_MASK', 'PERMISSIONS_BIT_MASK & permissions')]),
 ]
 bad = 0
 for prop, rel, subs in EDITS:
